@@ -64,6 +64,9 @@ scan(tree_instance* ti, std::string_view l_key, scan_endpoint l_end,
         return status::ERR_BAD_USAGE;
     }
 
+    // an INF left endpoint ignores the key passed with it (see kvs.h)
+    if (l_end == scan_endpoint::INF) { l_key = std::string_view{}; }
+
 retry_from_root:
     // clear out parameter, this must be after retry_from_root for retry.
     tuple_list.clear();
